@@ -76,13 +76,16 @@ def cases(draw):
         return ['const', c, wrap]
     cblocks = []
     for j in range(nc):
-        kind = draw(st.sampled_from(['noop', 'noop', 'func', 'and']))
+        kind = draw(st.sampled_from(['noop', 'noop', 'func', 'and', 'not']))
         # blocks computing real values are fed by sources only: the wiring may be cyclic, and only
         # the constant-output probes are stable in a loop
         srcnames = [n for n in names if n[0] in 'sz']
         pos = [ref(srcnames if kind == 'and' else None) for _ in range(draw(st.integers(0, 3)))]
         named = {}
-        if kind != 'and':
+        if kind == 'not':
+            # an explicit inverter, mostly fed through a shortcut (a double negation)
+            pos = [['not', draw(st.sampled_from(srcnames))] if draw(st.integers(0, 3)) else ref(srcnames)]
+        elif kind != 'and':
             for nm in draw(st.lists(st.sampled_from(['a', 'b', 'g', 'h']), unique=True, max_size=3)):
                 if nm in 'ab':
                     named[nm] = ref()
@@ -157,6 +160,8 @@ def execute(case):
                     blk = Noop(name)
                 elif d['kind'] == 'func':
                     blk = edzed.FuncBlock(name, func=_anyfunc)
+                elif d['kind'] == 'not':
+                    blk = edzed.Not(name)
                 else:
                     blk = edzed.And(name)
                 args = [mat(r) for r in d['pos']]
